@@ -26,14 +26,15 @@ ASSUMPTIONS = [
     "ties: any candidate of the arg-best set is accepted",
     "without refit only the *methods* predict/update must raise NotFittedError (cutoff is a property)",
 ]
-BASES = ["naive", "pipe", "mux"]
+BASES = ["naive", "pipe", "mux", "theta"]
 SCORERS = ["default", "mape_asym", "neg_mae_gib"]
 
 
 def gen_cases(tier, seed):
     for base in BASES:
         for gridform in ("dict", "list"):
-            for search in ["grid"] + [("rand", k, r) for k in (1, 2, 3) for r in (0, 1, 2)]:
+            for search in ["grid"] + [("rand", k, r) for k in (1, 2, 3) for r in (0, 1, 2)] + [
+                    ("rand", 2, "none"), ("rand", 3, "instance")]:
                 if tier == "quick" and search != "grid" and gridform == "list":
                     continue
                 for cvk in (0, 1, 2):
@@ -104,6 +105,12 @@ def _base(name, gridform):
             g = [{"forecaster__strategy": ["mean"], "forecaster__window_length": [3, 6]},
                  {"deseasonalizer__sp": [2], "deseasonalizer__model": ["additive",
                                                                         "multiplicative"]}]
+    elif name == "theta":
+        from sktime.forecasting.theta import ThetaForecaster
+
+        f = ThetaForecaster(sp=1)
+        g = {"deseasonalize": [True, False], "sp": [1, 2]} if gridform == "dict" else \
+            [{"sp": [2, 3]}, {"deseasonalize": [False]}]
     else:
         f = MultiplexForecaster([("naive", NaiveForecaster("last")),
                                  ("drift", NaiveForecaster("drift")),
@@ -133,8 +140,9 @@ def run_case(case):
     if search == "grid":
         t = ForecastingGridSearchCV(base, param_grid=grid, **kw)
     else:
+        rs = {"none": None, "instance": np.random.RandomState(7)}.get(search[2], search[2])
         t = ForecastingRandomizedSearchCV(base, param_distributions=grid, n_iter=search[1],
-                                          random_state=search[2], **kw)
+                                          random_state=rs, **kw)
     fh_fit = [1, 2]
     o = call(lambda: t.fit(y.copy(), fh=fh_fit))
     res.outcome("%s:%s:%s" % (case["base"], "grid" if search == "grid" else "rand", o.kind))
@@ -158,9 +166,12 @@ def run_case(case):
             res.violate("candidates:random", "sampled candidates not n_iter members of the grid",
                         expected=dict(n=search[1], grid=all_cands), observed=params)
             return res
-        t2 = ForecastingRandomizedSearchCV(base, param_distributions=grid, n_iter=search[1],
-                                           random_state=search[2], **kw).fit(y.copy(), fh=fh_fit)
-        if list(t2.cv_results_["params"]) != params:
+        t2 = None
+        if isinstance(search[2], int):
+            t2 = ForecastingRandomizedSearchCV(base, param_distributions=grid, n_iter=search[1],
+                                               random_state=search[2], **kw).fit(y.copy(),
+                                                                                 fh=fh_fit)
+        if t2 is not None and list(t2.cv_results_["params"]) != params:
             res.violate("candidates:reproducible", "same random_state gives other candidates",
                         expected=params, observed=list(t2.cv_results_["params"]))
     score_cols = [c for c in cvr.columns if c.startswith("mean_test_")]
@@ -211,6 +222,17 @@ def run_case(case):
                             "directly with best_params_ on the whole series",
                             expected=b.value if b.ok else b.brief(),
                             observed=a.value if a.ok else a.brief())
+                return res
+        if case["base"] == "theta":
+            # prediction intervals at a non-default level go through the tuner unchanged
+            a = call(lambda: t.predict([1, 2], return_pred_int=True, alpha=0.2))
+            b = call(lambda: twin.predict([1, 2], return_pred_int=True, alpha=0.2))
+            if a.ok != b.ok or (a.ok and not close(np.asarray(a.value[1]).astype(float),
+                                                   np.asarray(b.value[1]).astype(float), rtol=1e-9)):
+                res.violate("refit:pred_int", "prediction intervals of the tuner differ from "
+                            "those of the forecaster built with best_params_",
+                            expected=b.value[1] if b.ok else b.brief(),
+                            observed=a.value[1] if a.ok else a.brief())
                 return res
         if t.cutoff != twin.cutoff or t.cutoff != y.index[-1]:
             res.violate("refit:cutoff", "tuner cutoff differs", expected=twin.cutoff,
